@@ -30,6 +30,65 @@ def run(ctx):
                   'the one of the first branch that arrived', 'PAIR (order)')
     from mstatic.rules import shared as _sh
     _sh.inbound_before_publish(ctx, r7)
+    r8 = ctx.rule('R8', 'the per-definition spec cache is keyed by '
+                  'definition id AND its updated_at taken from the same '
+                  'row, so an updated definition is never served from the '
+                  'cache', 'AGREE')
+    spec_cache_keys(ctx, r8)
+
+
+def spec_cache_keys(ctx, rule):
+    prog = ctx.prog
+    PARSER = 'mistral.lang.parser'
+    f = prog.func(PARSER + '.get_workflow_spec_by_definition_id')
+    decs = [d for d in f.node.decorator_list if isinstance(d, ast.Call) and
+            (dotted(d.func) or '').endswith('cached')]
+    rule.check(len(f.params) == 2 and len(decs) == 1 and
+               decs[0].args and dotted(decs[0].args[0]) == '_WF_DEF_CACHE'
+               and not any(k.arg == 'key' for k in decs[0].keywords),
+               ctx.construct(f, extra='cached on (id, updated_at)'),
+               'the definition spec cache is not keyed on both the '
+               'definition id and its update time', ctx.loc(f))
+    n = 0
+    for q, g in sorted(prog.funcs.items()):
+        for c in own_nodes(g.node):
+            if isinstance(c, ast.Call) and \
+                    U.call_name(c) == 'get_workflow_spec_by_definition_id':
+                n += 1
+                a = [U.kwarg(c, 'wf_def_id', 0),
+                     U.kwarg(c, 'wf_def_updated_at', 1)]
+                ok = all(isinstance(x, ast.Attribute) for x in a) and \
+                    a[0].attr == 'id' and a[1].attr == 'updated_at' and \
+                    norm(a[0].value) == norm(a[1].value)
+                rule.check(ok, ctx.construct(g, c),
+                           'the spec of a definition is requested with %s: '
+                           'not the id and updated_at of one and the same '
+                           'definition row, so a stale (or foreign) cached '
+                           'spec can be returned'
+                           % [norm(x) if x is not None else None for x in a],
+                           ctx.loc(g, c))
+    if n < 3:
+        raise AnalysisError('C02.R8: only %d users of the definition spec '
+                            'cache' % n)
+    ex = prog.func(PARSER + '.get_workflow_spec_by_execution_id')
+    decs = [d for d in ex.node.decorator_list if isinstance(d, ast.Call) and
+            (dotted(d.func) or '').endswith('cached')]
+    rule.check(len(ex.params) == 1 and len(decs) == 1 and decs[0].args and
+               dotted(decs[0].args[0]) == '_WF_EX_CACHE',
+               ctx.construct(ex, extra='cached on the execution id'),
+               'the execution spec cache is not keyed on the execution id',
+               ctx.loc(ex))
+    pr = prog.func(PARSER + '.cache_workflow_spec_by_execution_id')
+    st = [x for x in own_nodes(pr.node) if isinstance(x, ast.Assign) and
+          isinstance(x.targets[0], ast.Subscript)]
+    rule.check(len(st) == 1 and dotted(st[0].targets[0].value) ==
+               '_WF_EX_CACHE' and U.phas(st[0].targets[0].slice,
+                                         'cachetools.keys.hashkey(%s)'
+                                         % pr.params[0]) and
+               norm(st[0].value) == pr.params[1],
+               ctx.construct(pr, extra='primes the same key'),
+               'priming the execution spec cache does not use the key the '
+               'cached reader computes (hashkey(execution id))', ctx.loc(pr))
 
 
 def _run(ctx):
